@@ -428,6 +428,30 @@ impl<T: std::cmp::PartialEq + std::fmt::Display + std::fmt::Debug + std::clone::
     }
 }
 
+#[cfg(feature = "xsg_verif")]
+impl<T: std::fmt::Display> Element<T> {
+    /// verification hook: plain-data projection of this element including its private fields
+    pub fn verif_view(&self) -> crate::verif::View {
+        crate::verif::View {
+            name: self.name.to_string(),
+            text: self.text.is_some(),
+            standalone: self.standalone,
+            count: self.count,
+            position: self.position,
+            attributes: self
+                .attributes
+                .iter()
+                .map(|a| crate::verif::tagged(a, |t| t.to_string()))
+                .collect(),
+            children: self
+                .children
+                .iter()
+                .map(|c| crate::verif::tagged(c, |e| e.verif_view()))
+                .collect(),
+        }
+    }
+}
+
 // returns true if the given text starts with "xmlns:" (a xml namespace attribute)
 fn starts_with_xmlns(text: &str) -> bool {
     match text.find(':') {
